@@ -148,6 +148,7 @@ theorem decode_encode (m : Msg) (h : WF m) (rest : Bytes) :
     refine ⟨_, encRecs_ok zs h, ?_⟩
     have h8 : ¬ (recSize = 0 ∧ zs.length = 0) := by simp [recSize, STRUCT_size]
     simp only [decode, repeatSize, repeatCount, h8, ↓reduceIte, Nat.lt_irrefl]
+    simp only [nonRepeatSize, List.drop_zero]
     rw [decRecs_recBytes zs h]
     rfl
 
